@@ -324,6 +324,35 @@ def path(ctx: Ctx, rep: Report) -> None:
         'an UPDATE from below is not applied and forwarded unchanged',
         key='update',
     )
+    # the server applies the same message: the employee's count moves by
+    # the payload (managers report +k for tasks they keep, -1 per task that
+    # finishes without its result passing through)
+    hm = ctx.fn(R.DET + '.handle_message')
+    d = [x for x in R.dispatchers(hm) if x.direction == 'BELOW']
+    b = d[0].branch('UPDATE') if d else None
+    rep.count()
+    ok = False
+    if b is not None:
+        gm = ctx.cfg(hm)
+        for st in b.body:
+            for n in ast.walk(st):
+                if isinstance(n, ast.AugAssign) and isinstance(
+                        n.op, ast.Add) and norm(n.target) == (
+                        'self.conn_to_employee_dict[conn].num_tasks'):
+                    nd = gm.node_containing(n.value) or gm.node_containing(n)
+                    v = norm(valnum.subst(ctx, hm, nd, n.value)) if nd else (
+                        norm(n.value))
+                    ok = v in ('payload', 'cast(int, payload)', 'task_diff')
+    rep.check(
+        ok, P, 'DetachedServer.BELOW:UPDATE', hm.path,
+        b.lineno if b else hm.lineno,
+        'an UPDATE from below moves the employee\'s task count by its '
+        'payload',
+        'the server does not add the UPDATE payload to the sending '
+        'employee\'s num_tasks: a manager that reports +k kept tasks is '
+        'booked wrongly and its count drifts (negative after the tasks '
+        'finish)', key='update-server',
+    )
 
 
 def flow(ctx: Ctx, rep: Report) -> None:
